@@ -142,6 +142,23 @@ Example C19_ex_last_known_time_ignores_not_before :
   verify_chain (Reliable 5000000) w_good = Err E_TIME.
 Proof. vm_compute. split; reflexivity. Qed.
 
+(** The root repeated as "intermediate" ([noc issued by the root; root; root]):
+    every certificate is signed by the next one, names and key ids link
+    (the root is self-issued), both authorities are CA certificates, so
+    the chain is valid exactly when the root's pathLen admits one
+    intermediate.  CASE follows the rule; AddNOC / UpdateNOC additionally
+    refuse a self-issued intermediate. *)
+Example C19_ex_root_repeated_as_intermediate :
+  chain_validb w_time [w_noc_direct; w_root; w_root] = true /\
+  case_admit w_time 9 w_root w_noc_direct (Some w_root) = Ok 5 /\
+  (let r0 := set_bc w_root (Some (true, Some 0)) in
+   rule_holds w_time RAuthPathLen [w_noc_direct; r0; r0] = false /\
+   case_admit w_time 9 r0 w_noc_direct None = Ok 5 /\
+   case_admit w_time 9 r0 w_noc_direct (Some r0) = Err E_DATA) /\
+  add_noc w_time [] 3 112233 w_root w_noc_direct (Some w_root) = Err E_NOC_INVALID /\
+  update_noc w_time 9 3 w_root w_noc_direct (Some w_root) = Err E_NOC_INVALID.
+Proof. vm_compute. repeat split; reflexivity. Qed.
+
 Example C19_ex_wrappers :
   case_admit w_time 9 w_root w_noc (Some w_icac) = Ok 5 /\
   case_admit w_time 8 w_root w_noc (Some w_icac) = Err E_INVALID /\
